@@ -1,16 +1,34 @@
 /-
-Model of `cascade.gateway.router.JobRouter` together with the dispatch of
-`cascade.gateway.server.handle_controller` / `handle_fe` / `serve`.
+Model of `cascade.gateway.router.JobRouter` together with `cascade.gateway.server`:
+`handle_controller`, `handle_fe` and the poll loop `serve`.
 
 State = association list job id ↦ (progress, last_seen, results, registered).
-  * `spawn`        : `JobRouter.spawn_job` with the id generator abstracted to a stream of
-                     candidate ids (`next_uuid` retries until the id is fresh)
-  * `report`       : `handle_controller` = `maybe_update` then `put_result` for each result.
-                     `serve` polls only registered sockets, so a report on an unregistered
-                     socket is never read: the step is disabled (`.notRead`).
-  * `progressOf`   : `handle_fe` on JobProgressRequest (empty list = all jobs)
-  * `getResult`    : `handle_fe` on ResultRetrievalRequest
-Python exceptions inside `handle_fe` become an error *response* with unchanged state.
+`registered` = the job's own PULL socket is still registered with the poller.
+
+Router level
+  * `spawn`        : `JobRouter.spawn_job`; the id generator is a stream of candidate ids
+                     (`next_uuid` retries until the id is fresh). `fail` = `_spawn_subprocess`
+                     raises: the job is entered only after the launch succeeded, so a failed
+                     launch leaves the state unchanged (error response).
+  * `report`       : body of `handle_controller` after `recv`: `maybe_update` then `put_result`
+                     for each result, inside the per-report error capture. Attribution is by
+                     `report.job_id` only (never by the socket the report arrived on). A report
+                     naming an unknown job raises `KeyError` unless it carries neither progress
+                     nor results (`maybe_update` returns early on `None`); a second shutdown
+                     notice raises in `poller.unregister`. Both are raised before any effect, so
+                     an error is a no-op (logged).
+  * `progressOf`   : `progress_of` (empty list = all jobs); `none` = KeyError → error response
+  * `getResult`    : `get_result`; `none` = KeyError → error response
+
+Server level
+  * `handleFe`     : `handle_fe`. `none` = an exception escapes (`parse_request` on a malformed
+                     request is outside the try blocks).
+  * `handleCtrl`   : `handle_controller` (garbage on a controller socket is caught and logged).
+  * `poll`         : one iteration of the `while not is_break` loop of `serve`: the poller returns
+                     the sockets that are registered *at poll time* (`ready`), they are handled in
+                     order, `is_break` is whatever the frontend handler returned last, an escaping
+                     exception ends the process (`dead`).
+  * `serve`        : the loop over a scripted sequence of poll results.
 -/
 namespace EkwVerif.Gateway
 
@@ -39,9 +57,10 @@ structure Report where
   status : Option String
   ts : Int
   results : List (String × String)
-deriving Repr
+deriving Repr, DecidableEq
 
-/-- `JobRouter.maybe_update` on an existing job. -/
+/-- `JobRouter.maybe_update` on an existing job whose socket is registered if the report is a
+shutdown notice. -/
 def maybeUpdate (job : Job) (status : Option String) (ts : Int) : Job :=
   match status with
   | none => job
@@ -53,15 +72,19 @@ def maybeUpdate (job : Job) (status : Option String) (ts : Int) : Job :=
 def putResults (job : Job) (rs : List (String × String)) : Job :=
   rs.foldl (fun jb r => { jb with results := r :: jb.results }) job
 
-inductive ReportOut | ok | notRead | keyError
+inductive ReportOut | ok | error
 deriving Repr, DecidableEq
 
-/-- `handle_controller` as reached from `serve`. -/
+/-- a shutdown notice for a job whose socket is no longer registered: `poller.unregister` raises -/
+def secondShutdown (job : Job) (r : Report) : Bool :=
+  r.status == some shutdownMark && !job.registered
+
+/-- Body of `handle_controller` (after `recv`), inside its error capture. -/
 def report (s : St) (r : Report) : St × ReportOut :=
   match find? s r.job with
-  | none => (s, .keyError)               -- `self.jobs[job_id]` raises: the serve loop dies
+  | none => if r.status.isNone && r.results.isEmpty then (s, .ok) else (s, .error)   -- KeyError, logged
   | some job =>
-    if !job.registered then (s, .notRead)
+    if secondShutdown job r then (s, .error)
     else (set s r.job (putResults (maybeUpdate job r.status r.ts) r.results), .ok)
 
 /-- `next_uuid`: first candidate not already a key. `none` models an exhausted generator. -/
@@ -69,10 +92,12 @@ def nextFresh (s : St) : List String → Option String
   | [] => none
   | c :: cs => if (find? s c).isSome then nextFresh s cs else some c
 
-def spawn (s : St) (candidates : List String) : St × Option String :=
+def freshJob : Job := { progress := started, lastSeen := -1, results := [], registered := true }
+
+def spawn (s : St) (candidates : List String) (fail : Bool := false) : St × Option String :=
   match nextFresh s candidates with
   | none => (s, none)
-  | some j => (s ++ [(j, { progress := started, lastSeen := -1, results := [], registered := true })], some j)
+  | some j => if fail then (s, none) else (s ++ [(j, freshJob)], some j)
 
 /-- `progress_of`: `none` = KeyError → error response. -/
 def progressOf (s : St) (ids : List String) : Option (List (String × String)) :=
@@ -89,27 +114,143 @@ def getResult (s : St) (j d : String) : Option String :=
   | none => none
   | some job => lookupRes job.results d
 
-/-- One externally visible operation of the gateway. -/
-inductive Op
-  | spawn (candidates : List String)
-  | report (r : Report)
+/-! ### server level -/
+
+/-- A frontend request as it arrives on the REP socket. -/
+inductive Req
+  | submit (candidates : List String) (fail : Bool)
   | progressOf (ids : List String)
   | getResult (j d : String)
-deriving Repr
+  | shutdown
+  | malformed                      -- bytes that `parse_request` rejects
+deriving Repr, DecidableEq
+
+/-- A message as it arrives on a job's PULL socket. -/
+inductive Msg
+  | report (r : Report)
+  | garbage                        -- bytes that `report.deserialize` rejects
+deriving Repr, DecidableEq
+
+/-- One ready socket with the message that `recv` will return. `owner` = the job whose PULL
+socket the message arrived on (independent of the job the report names). -/
+inductive Ev
+  | fe (q : Req)
+  | ctrl (owner : String) (m : Msg)
+deriving Repr, DecidableEq
 
 inductive Out
   | spawned (j : Option String)
-  | reported (o : ReportOut)
   | progress (r : Option (List (String × String)))
   | result (r : Option String)
+  | bye
+  | reported (o : ReportOut)
+  | notRead          -- socket not registered at poll time: the message stays in the socket
+  | died             -- an exception escaped `serve` while handling this event
+  | lost             -- ready, but the process died earlier in the same poll round
+  | notServed        -- the loop has ended (shutdown request or death)
+deriving Repr, DecidableEq
+
+/-- `handle_fe`. `none` = an exception escapes. -/
+def handleFe (s : St) : Req → Option (St × Out)
+  | .submit cs fail => let (s', j) := spawn s cs fail; some (s', .spawned j)
+  | .progressOf ids => some (s, .progress (progressOf s ids))
+  | .getResult j d => some (s, .result (getResult s j d))
+  | .shutdown => some (s, .bye)
+  | .malformed => none
+
+/-- `handle_controller`. -/
+def handleCtrl (s : St) : Msg → St × Out
+  | .report r => let (s', o) := report s r; (s', .reported o)
+  | .garbage => (s, .reported .error)
+
+def handle (s : St) : Ev → Option (St × Out)
+  | .fe q => handleFe s q
+  | .ctrl _ m => some (handleCtrl s m)
+
+/-- `is_break` after handling `e`. -/
+def brkOf (e : Ev) (brk : Bool) : Bool :=
+  match e with
+  | .fe .shutdown => true
+  | .fe _ => false
+  | .ctrl _ _ => brk
+
+/-- Is the socket of this event registered with the poller? -/
+def ready (s : St) : Ev → Bool
+  | .fe _ => true
+  | .ctrl k _ => match find? s k with
+    | some job => job.registered
+    | none => false
+
+structure LoopRes where
+  st : St
+  brk : Bool
+  dead : Bool
+  outs : List Out
+  handled : List Ev
 deriving Repr
 
-def step (s : St) : Op → St × Out
-  | .spawn cs => let (s', j) := spawn s cs; (s', .spawned j)
-  | .report r => let (s', o) := report s r; (s', .reported o)
-  | .progressOf ids => (s, .progress (progressOf s ids))
-  | .getResult j d => (s, .result (getResult s j d))
+/-- `for socket, _ in ready:` — the events carry the readiness computed at poll time. -/
+def pollLoop (s : St) (brk : Bool) : List (Ev × Bool) → LoopRes
+  | [] => ⟨s, brk, false, [], []⟩
+  | (e, rdy) :: rest =>
+    if !rdy then
+      let r := pollLoop s brk rest
+      { r with outs := .notRead :: r.outs }
+    else match handle s e with
+      | none => ⟨s, brk, true, .died :: rest.map (fun p => if p.2 then .lost else .notRead), []⟩
+      | some (s', o) =>
+        let r := pollLoop s' (brkOf e brk) rest
+        { r with outs := o :: r.outs, handled := e :: r.handled }
 
-def run (s : St) (ops : List Op) : St := ops.foldl (fun s op => (step s op).1) s
+inductive Phase | running | stopped | dead
+deriving Repr, DecidableEq
+
+structure G where
+  st : St
+  phase : Phase
+deriving Repr
+
+def G.init : G := ⟨[], .running⟩
+
+structure PollRes where
+  g : G
+  outs : List Out
+  handled : List Ev
+deriving Repr
+
+/-- One iteration of `while not is_break:` with the scripted poll result `b`. -/
+def poll (g : G) (b : List Ev) : PollRes :=
+  match g.phase with
+  | .running =>
+    let r := pollLoop g.st false (b.map (fun e => (e, ready g.st e)))
+    ⟨⟨r.st, if r.dead then .dead else if r.brk then .stopped else .running⟩, r.outs, r.handled⟩
+  | _ => ⟨g, b.map (fun _ => .notServed), []⟩
+
+/-- `serve` over a scripted sequence of poll results: final state, outputs per round, and the
+events that were handled, in order. -/
+def serve (g : G) : List (List Ev) → G × List (List Out) × List Ev
+  | [] => (g, [], [])
+  | b :: bs =>
+    let r := poll g b
+    let (g', outs, hd) := serve r.g bs
+    (g', r.outs :: outs, r.handled ++ hd)
+
+/-! ### the flat machine: a sequence of handled events -/
+
+def stepH (s : St) (e : Ev) : St :=
+  match handle s e with
+  | some (s', _) => s'
+  | none => s
+
+def runH (s : St) (evs : List Ev) : St := evs.foldl stepH s
+
+/-- the ids returned by successful submits along a flat history -/
+def handedOut (s : St) : List Ev → List String
+  | [] => []
+  | e :: evs =>
+    match handle s e with
+    | some (s', .spawned (some j)) => j :: handedOut s' evs
+    | some (s', _) => handedOut s' evs
+    | none => handedOut s evs
 
 end EkwVerif.Gateway
